@@ -33,7 +33,7 @@ impl<'a> VxTryIntoArr for &'a [u8] {
 pub struct Bytes(pub Vec<u8>);
 impl View for Bytes { type V = Seq<u8>; open spec fn view(&self) -> Seq<u8> { self.0@ } }
 impl Bytes { pub fn as_slice(&self) -> (r: &[u8]) ensures r@ == self@ { self.0.as_slice() } }
-impl<'a> VxByteSource for &'a Bytes { open spec fn vx_seq(self) -> Seq<u8> { self@ } #[verifier::external_body] fn vx_bytes(self) -> (r: VxBytes) { VxBytes(self.0.clone()) } }
+impl<'a> VxByteSource<u8> for &'a Bytes { open spec fn vx_seq(self) -> Seq<u8> { self@ } #[verifier::external_body] fn vx_bytes(self) -> (r: VxBytes) { VxChain(self.0.clone()) } }
 pub uninterp spec fn spec_sha256(d: Seq<u8>) -> Seq<u8>;
 #[verifier::external_body] pub fn sha256(data: &[u8]) -> (r: [u8; 32]) ensures r@ == spec_sha256(data@) { unimplemented!() }
 // the PRF salt of the statement: SHA-256("WebAuthn PRF" || 0x00 || input)
